@@ -827,7 +827,12 @@ func (h *handler1) handleMqttSn(ctx context.Context, pkt snPkts.Packet) error {
 				cancelPinger := h.startSleepPinger(ctx)
 				time.AfterFunc(time.Duration(snPkt.Duration)*time.Second, cancelPinger)
 			}
-			h.pktBuffer = nil
+			// The DISCONNECT reply must not be queued even if the client
+			// just changes its sleep duration => not (yet) asleep.
+			// The packets queued so far are kept for the next wake-up.
+			if h.state.Get() == util.StateAsleep {
+				h.setState(util.StateAwake)
+			}
 			m2 := snPkts1.NewDisconnect(0)
 			if err := h.snSend(m2); err != nil {
 				return err
